@@ -19,7 +19,7 @@ def add(pid, level, text, note, technique, design_ref):
     )
 
 add("C11", "exploration",
-    "Generated-input search with a linear-scan oracle: every size 0..40 is enumerated over 7 layouts, query boxes and every stop position; rapid draws multisets up to 300 (thorough 5000) boxes over 7 layouts and 3 coordinate classes with scripted callbacks. Each search result is compared with the exact expectation (set of hits, exactly-once, non-decreasing exact rational distance, no call after a non-nil return, error identity, Count, Extent) and the verif-tag hook checks the internal node invariants after load and after every search. Exploration is the right level: the quantifier is over unbounded item multisets and only the small sizes can be enumerated.",
+    "Generated-input search with a linear-scan oracle: every size 0..40 is enumerated over 8 layouts, query boxes and every stop position; rapid draws multisets up to 300 (thorough 5000) boxes over 7 layouts and 3 coordinate classes, a third of them mapped to non-dyadic ordinates, with scripted callbacks (nil, Stop, Stop wrapped by %w / two %w verbs / errors.Join, a foreign error). Each search result is compared with the exact expectation (set of hits, exactly-once, non-decreasing exact rational distance up to the float64 rounding of a squared distance, no call after a non-nil return, error identity, Count, Extent) and the verif-tag hook checks the internal node invariants after load and after every search. Exploration is the right level: the quantifier is over unbounded item multisets and only the small sizes can be enumerated.",
     "Trusted: the linear-scan oracle, math/big, rapid v1.3.0, the add-only VerifCheck hook. Holds on everything generated; absence of defects outside the generated sizes/layouts is not shown.",
     "property-based testing (rapid) + exhaustive small-size enumeration vs linear-scan model",
     "DESIGN.md C11")
@@ -31,7 +31,7 @@ add("C04", "exploration",
     "property-based testing (rapid): round-trip + differential against an independent codec",
     "DESIGN.md C04")
 add("C05", "exploration",
-    "Generated-input search over geometry models with all finite float64 classes x AppendWKT prefixes x token-level re-spellings x trailing tokens. Oracles: independent OGC-grammar WKT parser/printer, structural bit-wise comparison, a shortest-decimal test that tries the one-digit-shorter candidates, the independent WKB writer for WKT/WKB agreement; plus enumerated zero values of every Go type and hostile texts (NaN/Inf numerals, mixed dimensions) that must be rejected.",
+    "Generated-input search over geometry models with all finite float64 classes x AppendWKT prefixes x token-level re-spellings (keyword case, separators, bare and parenthesised MultiPoint members mixed in one text, plain and exponent numerals mixed) x trailing tokens. Oracles: independent OGC-grammar WKT parser/printer, structural bit-wise comparison, a shortest-decimal test that tries the one-digit-shorter candidates, the independent WKB writer for WKT/WKB agreement; plus enumerated zero values of every Go type and hostile texts (NaN/Inf numerals, mixed dimensions) that must be rejected.",
     "Trusted: independent WKT grammar (internal/codec/wkt.go), strconv.ParseFloat correct rounding, rapid.",
     "property-based testing (rapid): round-trip + grammar-based metamorphic re-spelling",
     "DESIGN.md C05")
@@ -69,30 +69,30 @@ add("C03", "exploration",
 
 
 add("C01", "exploration",
-    "Generated ordered pairs of valid geometries (all 7x7 type pairs, overlapping collection members, empties) on triangulated integer grids that coincide, are offset by half a cell or shifted, under an injective integer map. An exact rational arrangement of both operands gives, for every vertex, sub-edge and slab trapezoid, its membership in A and B; the expected result of each operation is the closed Boolean combination of those cells with its exact area, remainder length and isolated-point count. Every library result (Union, Intersection, Difference both orders, SymmetricDifference, argument orders swapped, UnaryUnion, Union(x,x), UnionMany) must be error-free, valid (oracle and Validate), contain exactly the expected face probes, have every expected remainder edge/point within tau, match the three measures and have the canonical shape. Because every operation is compared with the same exact point set, the Boolean-algebra laws hold as a consequence.",
+    "Generated ordered pairs of valid geometries (all 7x7 type pairs, overlapping collection members, empties) on triangulated integer grids that coincide, are offset by half a cell or shifted, under an injective integer map (optionally an exact dyadic affine image), a hole-nesting family, and a general-position float family (random 53-bit mantissas in a window: crossing points are not representable, the library must round its nodes). An exact rational arrangement of both operands gives, for every vertex, sub-edge and slab trapezoid, its membership in A and B; the expected result of each operation is the closed Boolean combination of those cells with its exact area, remainder length and isolated-point count. Every library result (Union, Intersection, Difference both orders, SymmetricDifference, argument orders swapped, UnaryUnion, Union(x,x), UnionMany) must be error-free, valid (oracle and Validate), contain exactly the expected face probes, have every expected remainder edge/point within tau, match the three measures and have the canonical shape. Because every operation is compared with the same exact point set, the Boolean-algebra laws hold as a consequence.",
     "Trusted: exact kernel (internal/exact). Strict domain (exact clearance >= 1e-6 x magnitude) only; probes closer than tau = 1e-9 x magnitude to an arrangement edge are skipped and counted.",
     "property-based testing (rapid) vs an exact-arithmetic arrangement oracle",
     "DESIGN.md C01")
 add("C02", "exploration",
-    "Same pair generator with pairwise exactly-disjoint collection members. DE-9IM oracle: every cell of the exact arrangement is located in I/B/E of each operand by the OGC definitions and M[x][y] is the largest dimension of a cell located (x,y). Relate(a,b) must equal it, Relate(b,a) its transpose, the nine named predicates the documented pattern lists evaluated by an independent matcher (Crosses/Overlaps with dimensions that ignore empty members), plus Contains/Within, Covers/CoveredBy, Disjoint/Intersects, Equals(a,a) relations; RelateMatches against the independent matcher on random (also malformed) matrix/pattern strings. Evidence reports the number of distinct matrices seen.",
+    "Same pair generator (lattice, hole-nesting and general-position float families) with pairwise exactly-disjoint collection members. DE-9IM oracle: every cell of the exact arrangement is located in I/B/E of each operand by the OGC definitions and M[x][y] is the largest dimension of a cell located (x,y). Relate(a,b) must equal it, Relate(b,a) its transpose, the nine named predicates the documented pattern lists evaluated by an independent matcher (Crosses/Overlaps with dimensions that ignore empty members), plus Contains/Within, Covers/CoveredBy, Disjoint/Intersects, Equals(a,a) relations; RelateMatches against the independent matcher on random (also malformed) matrix/pattern strings. Evidence reports the number of distinct matrices seen.",
     "Trusted: exact kernel. Strict domain only.",
     "property-based testing (rapid) vs an exact-arithmetic DE-9IM oracle",
     "DESIGN.md C02")
 
 
 add("C09", "exploration",
-    "C01's pair generator (plus a hole-nesting family and a third geometry) and a dense family with 20..2000 primitives per operand. Intersects must equal the exact intersects (exact segment-pair intersection or exact containment of a vertex), be symmetric, equal not-Disjoint and equal non-emptiness of Intersection; Distance must be symmetric, defined iff both operands are non-empty, zero iff they intersect exactly, within 1e-9 x magnitude of the exact minimum distance (rational arithmetic, square root at 200 bits; float brute force for the dense family), not below the envelope distance, and obey d(a,c) <= d(a,b)+diam(b)+d(b,c).",
+    "C01's pair generator (lattice, hole-nesting and general-position float families, plus a third geometry) and a dense family with 20..2000 primitives per operand. Intersects must equal the exact intersects (exact segment-pair intersection or exact containment of a vertex), be symmetric, equal not-Disjoint and equal non-emptiness of Intersection; Distance must be symmetric, defined iff both operands are non-empty, zero iff they intersect exactly, within 1e-9 x magnitude of the exact minimum distance (rational arithmetic, square root at 200 bits; float brute force for the dense family), not below the envelope distance, and obey d(a,c) <= d(a,b)+diam(b)+d(b,c).",
     "Trusted: exact kernel; float brute force for the dense family (integer inputs).",
     "property-based testing (rapid) vs exact-arithmetic and brute-force oracles",
     "DESIGN.md C09")
 add("C10", "exploration",
-    "Programs of 5..40 API calls drawn by reflection over the whole public read API (every exported value-receiver method of Geometry, the concrete types, Envelope, Sequence; 28 free functions) on a shared pool of 4 operands. Purity: canonical rendering of every operand unchanged after every call, after overwriting returned slices, after the concurrent phase; constructors do not retain slices; NewSequence's float slice never written; shared R-tree unchanged. Determinism: every call repeated 8x/32x bit-identically, 1 case in 20 replayed in a fresh process. Concurrency: the program issued from 2..16 goroutines (GOMAXPROCS 2/4/16) in a -race binary with halt_on_error; results must equal the sequential transcript and the race detector must stay silent.",
+    "Programs of 5..40 API calls drawn by reflection over the whole public read API (every exported value-receiver method of Geometry, the concrete types, Envelope, Sequence; 28 free functions) on a shared pool of 4 operands. Purity: canonical rendering of every operand unchanged after every call, after overwriting returned slices, after the concurrent phase; constructors do not retain slices; NewSequence's float slice never written; shared R-tree unchanged; decoder input buffers (WKB little-endian / big-endian / mixed byte order from the independent writer, TWKB, GeoJSON, Scan) are byte-identical after repeated and concurrent decodes of one shared buffer, which all return the same geometry. Determinism: every call repeated 8x/32x bit-identically, 1 case in 20 replayed in a fresh process. Concurrency: the program issued from 2..16 goroutines (GOMAXPROCS 2/4/16) in a -race binary with halt_on_error; results must equal the sequential transcript and the race detector must stay silent.",
     "Schedules are sampled, not enumerated (the Go scheduler cannot be controlled from a property library); the race detector's happens-before analysis flags conflicting unsynchronised accesses that occur in a run. Trusted: reflection-based argument synthesis respects documented preconditions.",
     "property-based testing (rapid): generated API programs, repetition, differential process, race detector",
     "DESIGN.md C10")
 add("C12", "exploration",
-    "Envelope algebra over the integer lattice {-2..2}^2 incl. degenerate and empty envelopes: all ordered pairs enumerated (both tiers), all triples in thorough, every method against integer interval arithmetic; and generated geometries of every type/coordinate type: Envelope() is exactly the min/max of the control points (Geometry, concrete type, Sequence), empty iff the geometry is, invariant under Reverse/Force*/member rotation, join of members, Envelope(Union) = join within 1e-9.",
-    "Trusted: integer interval arithmetic in props/c12_test.go.",
+    "Envelope algebra over the integer lattice {-2..2}^2 incl. degenerate and empty envelopes: all ordered pairs enumerated (both tiers), all triples in thorough, every method against integer interval arithmetic; a float family (triples over per-case pools of non-dyadic, 1e15+fraction, 1e-300/subnormal, 1e300 and signed-zero ordinates with derived touching/nested boxes: predicates, joins and Contains compared exactly incl. one-ulp neighbours, Width/Height/Center/Area/Distance with the correctly rounded exact rational value); and generated geometries of every type/coordinate type: Envelope() is exactly the min/max of the control points (Geometry, concrete type, Sequence), empty iff the geometry is, invariant under Reverse/Force*/member rotation, join of members, Envelope(Union) = join within 1e-9.",
+    "Trusted: integer interval arithmetic in props/c12_test.go, math/big for the float family (Distance is compared only while the squared gaps neither overflow nor underflow).",
     "exhaustive enumeration of a finite lattice + property-based testing (rapid)",
     "DESIGN.md C12")
 add("C13", "exploration",
@@ -101,12 +101,12 @@ add("C13", "exploration",
     "property-based testing (rapid) + exhaustive small-space enumeration vs an exact characterisation",
     "DESIGN.md C13")
 add("C14", "exploration",
-    "Valid geometries of every type (lattice and exact dyadic float images): Area vs the exact sum of slab trapezoids (cross-checked with the exact shoelace value), signed area after ForceCCW/ForceCW/Reverse, Area(WithTransform f) = TransformXY(f).Area() = area x |det f|, Length and length-weighted centroid at 200 bits, exact area-weighted centroid / point average, on Geometry and the concrete types; invariance under ring rotation, reversal, member permutation, Z/M; translation; additivity.",
+    "Valid geometries of every type (triangulated-grid shapes and comb / side-by-side-hole shapes; lattice and exact dyadic float images): Area vs the exact sum of slab trapezoids (cross-checked with the exact shoelace value), signed area after ForceCCW/ForceCW/Reverse, Area(WithTransform f) = TransformXY(f).Area() = area x |det f|, SignedArea and WithTransform together in both argument orders = signed area x det f, Length and length-weighted centroid at 200 bits, exact area-weighted centroid / point average, on Geometry and the concrete types; invariance under ring rotation, reversal, member permutation, Z/M; translation; additivity.",
     "Trusted: exact kernel. Tolerance 1e-9 x magnitude (squared for area).",
     "property-based testing (rapid) vs exact-arithmetic measures + metamorphic relations",
     "DESIGN.md C14")
 add("C15", "exploration",
-    "Valid geometries of every type: Boundary(g) has lower dimension or is empty, an empty boundary itself, every vertex and segment midpoint of it is located Boundary in g by the exact OGC locator, its points are exactly the odd-degree end points and its segments exactly g's ring segments, a collection's boundary is the ordered list of its members' non-empty boundaries; PointOnSurface(g) is empty iff g is, finite, XY, exactly interior for areal g and on a member of the highest dimension otherwise; Dimension/IsEmpty equal the structural values.",
+    "Valid geometries of every type (triangulated-grid shapes and comb / side-by-side-hole shapes whose scan lines see several solid stretches and wider gaps): Boundary(g) has lower dimension or is empty, an empty boundary itself, every vertex and segment midpoint of it is located Boundary in g by the exact OGC locator, its points are exactly the odd-degree end points and its segments exactly g's ring segments, a collection's boundary is the ordered list of its members' non-empty boundaries; PointOnSurface(g) is empty iff g is, finite, XY, exactly interior for areal g and on a member of the highest dimension otherwise; Dimension/IsEmpty equal the structural values.",
     "Trusted: exact kernel.",
     "property-based testing (rapid) vs the exact OGC point locator",
     "DESIGN.md C15")
@@ -121,12 +121,12 @@ add("C17", "exploration",
     "property-based testing (rapid) vs exact-arithmetic contracts",
     "DESIGN.md C17")
 add("C19", "exploration",
-    "Nine projections x drawn configurations (centre/origin, standard parallels in both hemispheres and orders, radius, zoom) x points (centre itself, standard parallels, graticule, random) in each implementation's well-conditioned domain, plus the enumerated graticule for fixed configurations: Forward finite, Reverse(Forward(p)) within 1e-9 degrees (NaN fails), equal-area / conformal / equidistant character by central-difference Jacobians, standard parallels true to scale, web Mercator square/centre/orientation.",
+    "Nine projections x drawn configurations (centre/origin incl. exactly and nearly polar centres for the azimuthal ones, standard parallels in both hemispheres and orders, radius, zoom) x points (centre itself, standard parallels, graticule, random) in each implementation's well-conditioned domain, plus the enumerated graticule for fixed configurations: Forward finite, Reverse(Forward(p)) within 1e-9 degrees (NaN fails), equal-area / conformal / equidistant character by central-difference Jacobians, standard parallels true to scale, web Mercator square/centre/orientation.",
     "Trusted: math package. Singular configurations (equal or symmetric standard parallels, cos(p1)=0) are excluded.",
     "property-based testing (rapid) + graticule enumeration: round-trip and metamorphic Jacobian identities",
     "DESIGN.md C19")
 add("C20", "exploration",
-    "Every exported value-receiver method (found by reflection; 351 distinct) and 28 free functions invoked with receivers/arguments from an empties zoo (zero values, typed empties in 4 coordinate types, collections of empties, nested) and real geometries: no panic; documented neutral answers for empty receivers; geom.Geometry{} vs an explicit empty GeometryCollection give identical canonical results; transparency: g vs g+ (empty members inserted) agree on measures, envelope, hull, distance, intersects, DE-9IM, all predicates and the point sets of all set operations.",
+    "Every exported value-receiver method (found by reflection; 351 distinct) and 28 free functions invoked with receivers/arguments from an empties zoo (zero values, typed empties in 4 coordinate types, collections of empties, nested) and real geometries: no panic; documented neutral answers for empty receivers; geom.Geometry{} vs an explicit empty GeometryCollection give identical canonical results; transparency: g (optionally nested in extra collections) vs g+ (empty members inserted at drawn positions and nesting depths, also inside inner non-empty collections) agree on measures, envelope, hull, distance, intersects, DE-9IM, all predicates and the point sets of all set operations.",
     "Trusted: argument synthesis respects documented preconditions (valid indices, MustAsX on the matching type, Densify > 0); point-set equality by the exact kernel. Free functions not in the table are listed in the evidence (uncovered_api).",
     "property-based testing (rapid) over a reflection-enumerated API: totality + differential + metamorphic",
     "DESIGN.md C20")
